@@ -407,6 +407,11 @@ def run_once(w, faults, budget=None):
             rec["exc"] = exc
         except BaseException as exc:  # noqa: BLE001 - judged by the oracle
             rec["exc"] = exc
+    if rec["exc"] is not None:
+        try:
+            str(rec["exc"])
+        except Exception as exc2:  # noqa: BLE001
+            rec["str_fails"] = f"{type(exc2).__name__}: {exc2}"
     rec["steps"] = st.steps
     rec["warnings"] = [type(x.message).__name__ for x in wlist]
     rec["disk"] = disk
@@ -451,6 +456,9 @@ def judge(trace, rec, base):
 
     if isinstance(exc, (StepBudgetExceeded, WallBudgetExceeded)):
         out.append(_v("liveness", f"the call did not return: {exc}", trace))
+        return out
+    if rec.get("str_fails"):
+        out.append(_v("error_message_unprintable", f"{et} was raised but str() of it raises {rec['str_fails']}", trace, et))
         return out
     if (w.get("knobs") or {}).get("warnings") == "error":
         # Warnings are errors in this run: a warning raised inside iodata is just another failure, so which
